@@ -345,6 +345,65 @@ def _omen_reader_strip(ctx, rule):
     return c07.r5_strip_discipline(ctx, rule, only=c11._OMEN_READERS, floor=4)
 
 
+def r22_level_tally(ctx, rule):
+    """The per-level password count is a count: in the third pass every password adds exactly one to the tally of ITS level.
+
+    run_trainer: `level = find_omen_level(omen_trainer, password)`; `omen_levels_count[level] += 1` inside the loop over read_password()
+    (which yields a password as often as it occurs).  The saved probability of a level is this count / N / keyspace: a tally by 2, a
+    tally under another key or no tally changes every saved probability without touching the keyspace (mutation sweep: `+= 2`, `+= 0`
+    were silent)."""
+    q = 'lib_trainer/run_trainer.py::run_trainer'
+    fn = ctx.fn(q)
+    ctx.stats['functions'].add(q)
+    n = 0
+    for lp in [x for x in walk_local(fn) if isinstance(x, ast.For) and 'read_password' in U(x.iter)]:
+        lv = [st for st in walk_stmts(lp.body) if isinstance(st, ast.Assign) and len(st.targets) == 1 and isinstance(st.targets[0], ast.Name)
+              and isinstance(st.value, ast.Call) and call_name(st.value).endswith('find_omen_level')]
+        inline = [c for c in calls_in(lp) if call_name(c).endswith('find_omen_level')]
+        if not inline:
+            continue
+        n += 1
+        level_txt = {U(st.targets[0]) for st in lv} | {U(c) for c in inline}
+        pw = lp.target.id if isinstance(lp.target, ast.Name) else None
+        for c in inline:
+            if pw and (len(c.args) < 2 or U(c.args[1]) != pw):
+                ctx.bad(rule, q, 'level looked up for %s, the loop variable is %s' % (U(c.args[1]) if len(c.args) > 1 else '?', pw),
+                        'the level tallied is the level of the password just read', None, c, firm=True)
+                return
+        tallies = [st for st in walk_stmts(lp.body) if isinstance(st, ast.AugAssign) and isinstance(st.target, ast.Subscript)
+                   and U(st.target.slice) in level_txt]
+        other = [st for st in walk_stmts(lp.body) if isinstance(st, ast.AugAssign) and isinstance(st.target, ast.Subscript)
+                 and 'level' in U(st.target.value) and st not in tallies]
+        updates = [c for c in calls_in(lp) if isinstance(c.func, ast.Attribute) and c.func.attr == 'update' and 'level' in U(c.func.value)]
+        if other:
+            ctx.bad(rule, q, 'tally %s' % U(other[0])[:60], 'the tally is filed under the level find_omen_level returned for this password', None, other[0], firm=True)
+            return
+        if updates and not tallies:
+            a = updates[0].args[0] if updates[0].args else None
+            if isinstance(a, (ast.List, ast.Tuple)) and len(a.elts) == 1 and U(a.elts[0]) in level_txt:
+                ctx.ok(rule, q, 'every password adds one to the tally of its level (Counter.update of a one-element list)')
+                continue
+            ctx.unk(rule, q, 'the level tally is a Counter.update of a form this rule does not know: ' + U(updates[0])[:60])
+            return
+        if len(tallies) != 1:
+            if not tallies:
+                ctx.bad(rule, q, 'the level found for a password is not tallied', 'the saved probability of a level is (passwords at that level) / N / keyspace',
+                        None, lp, firm=True)
+            else:
+                ctx.unk(rule, q, '%d tallies of the level in one loop' % len(tallies))
+            return
+        t = tallies[0]
+        if not isinstance(t.op, ast.Add) or const(t.value) != 1 or isinstance(const(t.value), bool):
+            ctx.bad(rule, q, 'tally %s' % U(t)[:60], 'every password counts once', None, t, firm=True)
+            return
+        conds = [(U(c_), p_) for c_, p_ in path_conditions(ctx.repo.modules[q.partition('::')[0]], t, stop=lp)]
+        if conds:
+            ctx.unk(rule, q, 'the level tally is conditional: %s' % conds[:2])
+            return
+        ctx.ok(rule, q, 'every password adds one to the tally of its level (%s)' % U(t))
+    ctx.floor(rule, q, n, 1, 'third-pass loops that look up the OMEN level of a password')
+
+
 def _shared_rule(mod, name, **kw):
     def run(ctx, rule):
         import importlib
@@ -372,7 +431,9 @@ def rules(tier):
             # C18-ea: CP.level written without encoding=
             ('C18.R20', _shared_rule('c07', 'r2_encoding_agreement')),
             # C18-eb: _find_cp memoised under (ip, top_level)
-            ('C18.R21', _shared_rule('c10', 'r25_cracker_plumbing'))]
+            ('C18.R21', _shared_rule('c10', 'r25_cracker_plumbing')),
+            # mutation sweep (third run): omen_levels_count[level] += 2
+            ('C18.R22', r22_level_tally)]
 
 
 META = {
